@@ -229,5 +229,5 @@ func runC06(c *Ctx) {
 			}
 			return "ok", nil
 		}}
-	runScenarios(c, wr, rd, cb, gd, corpusReadback(c, "corpus construction: FromUnsafeBytes(ToBytes())", "ToBytes"))
+	runScenarios(c, corpusReadback(c, "corpus construction: FromUnsafeBytes(ToBytes())", "ToBytes"), wr, rd, cb, gd)
 }
